@@ -149,11 +149,14 @@ impl TraversalMut for DfsPre {
     }
 
     fn skip_subtree(&mut self) {
-        self.size_lb = self.stack.len();
         self.size_ub -= self.last_push;
         for _ in 0..self.last_push {
             self.stack.pop();
         }
+        // the children of the last returned item are gone: a repeated call must not pop anything else,
+        // and only the entries still on the stack are guaranteed to be visited
+        self.last_push = 0;
+        self.size_lb = self.size_lb.min(self.stack.len());
     }
 
     fn next<N, const K: usize>(&mut self, tree: &Tree<N, K>) -> Option<DfsNodeData> {
@@ -223,11 +226,14 @@ impl TraversalMut for DfsEdge {
     }
 
     fn skip_subtree(&mut self) {
-        self.size_lb = self.stack.len();
         self.size_ub -= self.last_push;
         for _ in 0..self.last_push {
             self.stack.pop();
         }
+        // the children of the last returned item are gone: a repeated call must not pop anything else,
+        // and only the entries still on the stack are guaranteed to be visited
+        self.last_push = 0;
+        self.size_lb = self.size_lb.min(self.stack.len());
     }
 
     fn next<N, const K: usize>(&mut self, tree: &Tree<N, K>) -> Option<Self::Item> {
@@ -287,11 +293,14 @@ impl TraversalMut for Bfs {
     }
 
     fn skip_subtree(&mut self) {
-        self.size_lb = self.queue.len();
         self.size_ub -= self.last_push;
         for _ in 0..self.last_push {
             self.queue.pop_back();
         }
+        // the children of the last returned item are gone: a repeated call must not pop anything else,
+        // and only the entries still in the queue are guaranteed to be visited
+        self.last_push = 0;
+        self.size_lb = self.size_lb.min(self.queue.len());
     }
 
     fn next<N, const K: usize>(&mut self, tree: &Tree<N, K>) -> Option<DfsNodeData> {
